@@ -100,6 +100,18 @@ CHECKS = {
         note="Under coercion str/float leaves come from finite pools (C03 note). Alternatives are flattened as typing does.",
         design="4/C13",
     ),
+    "C14": dict(
+        text="Two real runs per datum, related by a reference normaliser: for union-free programs "
+        "deserialize(T, d, coerce=True) must equal (verdict and value) the strict deserialize(T, norm_T(d)) where norm_T "
+        "applies exactly the documented conversions at primitive positions (int()/float()/str() between strings and "
+        "numbers, the 14-word case-insensitive boolean table, int to bool, '' to None); for all programs strict "
+        "acceptance implies coerced acceptance, with an equal result when union-free. Custom coercers returning right- "
+        "and wrong-typed results: the result is still type-checked.",
+        note="Under coercion str and float leaves come from finite pools (boolean words in mixed case, numeric strings, "
+        "whitespace, '', fullwidth digit) and ints range over [-99, 99]: int(str), str(int) and dict lookups realise. "
+        "Programs with fall_back_on_default metadata are excluded.",
+        design="4/C14",
+    ),
 }
 
 NOT_YET = "check not built yet at this commit (work in progress, see DESIGN.md section 4)"
